@@ -98,6 +98,8 @@ def quantile_score(y_tau, y_test, taus):
     taus = np.asarray(taus)
     m = taus.size
 
+    if y_tau.ndim > 1 and np.prod(y_tau.shape[1:]) != m:
+        raise ValueError("Shape of y_tau is incompatible with taus.")
     y_tau = y_tau.reshape(-1, m)
     n = y_tau.shape[0]
 
